@@ -32,7 +32,7 @@ COMPONENTS = {
     "stub": ["CAN backend (SimBus)", "can.Notifier (deliveries are simulator events through Network.listeners)", "python-can cyclic send task (SimCyclicTask)"],
 }
 PROBES = ["subscribe-duplicate", "unsubscribe-all", "node-replaced", "node-removed", "frame-for-dead-node", "error-frame", "remote-frame",
-          "duplicate-frame", "extended-id-sent", "extended-id-received", "extra-sdo-channel", "scanner-reset"]
+          "duplicate-frame", "extended-id-sent", "extended-id-received", "extra-sdo-channel", "scanner-reset", "node-re-added"]
 
 USER_IDS = (0x123, 0x181, 0x081, 0x701, 0x000, 0x582, 0x7E4, 0x10000123)
 NODE_IDS = (1, 2, 3, 5, 64, 127)
@@ -336,7 +336,7 @@ def scenario(ctx):
     for i in range(nops):
         with ctx.span("op"):
             op = ctx.weighted(((10, "rx"), (5, "sub"), (3, "unsub"), (1, "unsub-all"), (3, "add"), (2, "del"), (2, "tx"), (1, "txp"),
-                               (2, "rx-special"), (1, "scan-reset")), "op")
+                               (2, "rx-special"), (1, "scan-reset"), (1, "re-add")), "op")
             if op == "rx":
                 can_id = _pick_id(ctx, w)
                 _receive(ctx, w, can_id, _frame_for(ctx, w, can_id))
@@ -374,6 +374,22 @@ def scenario(ctx):
                     ctx.cover(("unsub-all",))
             elif op == "add":
                 _add_node(ctx, w, NODE_IDS[ctx.choice(len(NODE_IDS), "nid")], ("remote", "local")[ctx.choice(2, "kind")])
+            elif op == "re-add":
+                # the same node object is stored again under its id: it stays the node of that id
+                if w.nodes:
+                    ids = sorted(w.nodes)
+                    nid = ids[ctx.choice(len(ids), "which")]
+                    rec = w.nodes[nid]
+                    if ctx.choice(2, "how"):
+                        _, exc = call(w.net.add_node, rec.node)
+                    else:
+                        def do():
+                            w.net[nid] = w.net[nid]
+                        _, exc = call(do)
+                    if exc is not None:
+                        ctx.violation("C10/add-node-raised/%s@%s" % (type(exc).__name__, site(exc)), "re-adding %s node %d raised %r" % (rec.kind, nid, exc))
+                    ctx.probe("node-re-added")
+                    ctx.cover(("re-add", rec.kind))
             elif op == "del":
                 if w.nodes:
                     ids = sorted(w.nodes)
